@@ -166,6 +166,21 @@ func Now() time.Duration {
 	return time.Since(s.start)
 }
 
+// Stopping reports whether the run is over (budget exhausted, panic, main returned): whatever
+// leftover code observes from then on is not an observation of the system.
+func Stopping() bool {
+	s := cur.Load()
+	if s == nil {
+		return true
+	}
+	if s.dead.Load() {
+		return true
+	}
+	s.mu.Lock()
+	defer s.mu.Unlock()
+	return s.teardown || s.stop != ""
+}
+
 // Step returns the number of scheduler steps taken so far (a global event sequence number).
 func Step() int {
 	s := cur.Load()
@@ -409,6 +424,31 @@ func YieldHint(site, hint string) {
 		return
 	}
 	s.parkEligible(t, site)
+}
+
+// Serialize is called by simulator operations that change shared state without blocking
+// (closing a connection). A goroutine the scheduler has never seen - a library helper such as
+// crypto/tls's handshake interrupter, woken natively and running beside the current task - is
+// adopted and parked first, so that its effect lands at a scheduling decision instead of racing
+// with the running task. Known tasks are never parked here: libraries close connections with
+// their own mutexes held.
+func Serialize(site, hint string) {
+	s := cur.Load()
+	if s == nil || s.dead.Load() {
+		return
+	}
+	g := goid()
+	if g == s.rootGoid {
+		return
+	}
+	s.mu.Lock()
+	_, known := s.byGoid[g]
+	td := s.teardown
+	s.mu.Unlock()
+	if known || td {
+		return
+	}
+	YieldHint(site, hint)
 }
 
 // SetTag labels the calling task.
